@@ -8,6 +8,7 @@ from ..index import FuncInfo
 from ..nf import NF, Atom, Undecided, app, atoms_of, lift, nf_equal, single_atom, subst, sym
 from ..values import NONE, Cond, ListV, NoneV, Num, ObjV, SliceV, TupleV, valkey
 from .common import (
+    is_data_src,
     ABSTRACT_SUMMARIES,
     N,
     Pdim,
@@ -88,7 +89,7 @@ def role_args(ex, ctx, drv: FuncInfo, roles):
     defaults = dict(zip([x.arg for x in a.args][len(a.args) - len(a.defaults):], a.defaults))
     for p in drv.params:
         src = roles.get(p, "")
-        if src.endswith(".values") or src == "X":
+        if is_data_src(src):
             v = data_sym(ex)
             st["X"] = v
         elif src.startswith("self._") and any(w in src for w in ("cost", "score", "saving")):
